@@ -119,11 +119,19 @@ def run_call_model(ctx: Ctx):
         for perm in perms:
             ex = SchedExecutor(lambda m, p=perm: list(p) if m == len(p) else list(range(m)))
             saved = install_wait(ex)
+            xk = x if rng.random() < 0.5 else {'b': b, 'a': a}       # the caller's dict may list the inputs in any order
             try:
-                par = canon_ds(cp.call_model(x, executor=ex))
-                par_u = canon_ds(cu.call_model(x, executor=ex))
+                par = canon_ds(cp.call_model(xk, executor=ex))
+                par_u = canon_ds(cu.call_model(xk, executor=ex))
+                raw = cp.call_model(xk, executor=ex)
             finally:
                 restore_wait(saved)
+            # the error records name the sample that failed: its inputs and its position
+            for i, rec in (raw.get('errors') or {}).items():
+                ri = {k_: float(np.ravel(v_)[0]) for k_, v_ in rec['inputs'].items()}
+                if ri != {'a': float(a[i]), 'b': float(b[i])} or int(rec['index']) != i:
+                    ctx.violate('C15:error-record-misaligned', f'schedule {perm}: the error record of sample {i} holds inputs {ri} / index {rec["index"]}; '
+                                f'the sample is a={a[i]}, b={b[i]}', {**case0, 'schedule': list(perm)})
             case = {**case0, 'schedule': list(perm)}
             ctx.case(case, nontrivial=N >= 2 and list(perm) != sorted(perm), kind=f'call_model:N={N}')
             if par != serial or par_u != serial:
@@ -267,7 +275,7 @@ def run_fidelity_executor(ctx: Ctx):
         ctx.case(case, nontrivial=True, kind='fidelity-executor')
         if states[0][1] != states[1][1]:
             ctx.violate('C15:executor-ignores-model-fidelity', f'call_model with per-sample fidelities: serial {states[0][1]} vs executor {states[1][1]}', case)
-        if states[0][0]['data'] != states[1][0]['data'] or states[0][0]['active'] != states[1][0]['active']:
+        if systems.digest(states[0][0]['data']) != systems.digest(states[1][0]['data']) or states[0][0]['active'] != states[1][0]['active']:     # digest: NaN-safe
             ctx.violate('C15:training-data-depends-on-executor', 'training data stored by activate_index(executor=...) differ from the serial run '
                         '(same activations)', case)
 
